@@ -226,7 +226,7 @@ def _feature_flags(case):
 # ---------------------------------------------------------------------- C04
 class C04:
     id = "C04"
-    quick, thorough = 700, 10000
+    quick, thorough = 2000, 40000
     timeout = 120
     rule = ("case = tree x piece length x version x encoder (tool creators / reference encoder variants) x 1-4 "
             "damages (flip / truncate / remove at boundary-biased positions) x recheck route (Checker, CLI "
@@ -280,7 +280,7 @@ class C04:
 # ---------------------------------------------------------------------- C05
 class C05:
     id = "C05"
-    quick, thorough = 700, 10000
+    quick, thorough = 2000, 40000
     timeout = 120
     rule = ("case = intact tree x piece length x version x encoder (four tool creators, CLI, reference encoder "
             "variants: v1 unsorted order, v1 BEP 47 padding, v2 single file without info.length, hybrid with / "
@@ -392,7 +392,7 @@ class C05:
 # ---------------------------------------------------------------------- C16
 class C16:
     id = "C16"
-    quick, thorough = 700, 10000
+    quick, thorough = 2000, 40000
     timeout = 120
     rule = ("case = as C04 (0-4 simultaneous damages; 15% intact); oracle: |reported - reference| < 1e-9 where "
             "reference = 100 * bytes in verifying pieces / all bytes, computed piece by piece with absent data "
